@@ -27,6 +27,19 @@ CHECKS = {
         design="7/C03",
         technique="contracts as closed obligations on the objects the real constructors build, decided exactly by the ground GF(2) kernel (complete enumeration); distance clause also proved symbolically through the real forward() for small k",
     ),
+    "C02": dict(
+        text="t-error correction (decoded == m and reported errors == e for r = m.G xor e, wt(e) <= t, t from the ADVERTISED distance) is discharged for ALL messages and ALL error patterns at once - symbolic m and e with a cardinality constraint - for the syndrome-lookup decoder (redundancy <= 4 quick / 6 thorough), the brute-force ML decoder (k <= 4 / 6), the Hamming single-error inverse and the Reed-Muller nearest-codeword inverse, by path-complete symbolic execution of the real forward() (per-row loops, .item(), dict lookup, torch.equal, argmin). The minimum-distance clause of the complete decoders is discharged for EVERY received word (n <= 12). The syndrome table is checked as a ground obligation (complete, every entry a coset leader). Berlekamp-Massey and the Reed-Muller majority decoder are covered by the bounded stand-in only (exhaustive over all codewords x all <=t-weight patterns for n = 7, 15 where small, seeded samples otherwise) and are not counted as proved.",
+        note="Trusted: C01's contract (received words are formed from the published G), vk engine, z3. Out of reach of proof: Berlekamp-Massey/Chien (full concretisation of the word; deep algebraic theorem) and the majority-logic decoder. Known finding: RS-style codes advertise t beyond their true distance.",
+        design="7/C02",
+        technique=E2 + "; bounded native stand-in for Berlekamp-Massey and majority-logic decoding",
+    ),
+    "C19": dict(
+        text="Shape contract proved for ALL batch/height/width (unbounded): the real encoder/decoder modules of 8 published pairs run under FakeTensorMode+ShapeEnv with symbolic B,H,W; size expressions and guards are translated to z3 and decoder(encoder(x)).shape == x.shape, latent size == documented ratio, guard coverage (case split), cover and canary are discharged under 2^L | H,W with L read from the real module. Differentiability: AST taint analysis of the real forward methods (no detach/item/float/re-wrap on signal-dependent values) and autograd-graph reachability as discharged obligations; gradcheck and end-to-end encoder gradients as bounded stand-ins.",
+        note="Trusted: PyTorch meta kernels/ShapeEnv guard recording (differentially checked every run), sympy->z3 translation, autograd correctness. Gradients vs finite differences are floating point: bounded only. Model wrappers with data-dependent branches fall to bounded shape checks.",
+        design="7/C19",
+        technique="contracts on the real nn.Modules discharged with symbolic shapes (FakeTensorMode/ShapeEnv -> z3, all B,H,W); AST taint analysis for the no-detach frame condition; gradcheck as bounded stand-in",
+        engine="vk-E3-symshape",
+    ),
 }
 
 NOT_YET = {}
@@ -71,6 +84,8 @@ def main():
         },
         "engines": [
             {"name": "vk-E2-symtorch", "path": "vk/", "serves_properties": [p for p in props if p in CHECKS and CHECKS[p].get("engine", "vk-E2-symtorch") == "vk-E2-symtorch"], "kind_free_text": "symbolic execution of the real torch code under a TorchFunctionMode with z3-term payloads; path-complete; obligations to z3; ground kernel for closed obligations; bounded native stand-in"},
+            {"name": "vk-E3-symshape", "path": "vk/e3.py", "serves_properties": [p for p in props if p in CHECKS and CHECKS[p].get("engine") == "vk-E3-symshape"], "kind_free_text": "real nn.Modules under FakeTensorMode+ShapeEnv with symbolic batch/height/width; size expressions and guards to z3; AST taint analysis; gradcheck stand-in"},
+            {"name": "vk-E1-vcgen", "path": "vk/e1/", "serves_properties": [p for p in props if p in CHECKS and CHECKS[p].get("engine") == "vk-E1-vcgen"], "kind_free_text": "ast -> verification conditions for pure-integer code with sidecar loop invariants and ghost state; z3"},
         ],
         "checks": checks,
         "notes": "fix: commits in /repo repair genuine defects found by failing obligations (listed as 'fixed:' lines in known_findings.jsonl). See DESIGN.md.",
